@@ -1,13 +1,15 @@
 package harness
 
 import (
+	"fmt"
+
 	txfile "github.com/elastic/go-txfile"
 
 	"verifsim/simdisk"
 )
 
 func init() {
-	probeNames["C11"] = []string{"conservation_checked", "probe_zero", "commit_ok", "tx_aborted", "commit_failed", "out_of_memory", "reopen", "meta_grew", "file_full_cycle", "prealloc", "continued_after_crash_recovery", "big_free_region_preset"}
+	probeNames["C11"] = []string{"conservation_checked", "probe_zero", "commit_ok", "tx_aborted", "commit_failed", "out_of_memory", "reopen", "meta_grew", "file_full_cycle", "prealloc", "continued_after_crash_recovery", "big_free_region_preset", "reopen_with_bigger_limit"}
 	register(&PropDef{
 		ID: "C11", Level: "exploration", QuickSec: 50, ThoroSec: 900,
 		Rule: "each run = one long seeded alloc/free history (20-150 transactions quick, up to 600 thorough; fill-to-out-of-space and free cycles, rollbacks, failed commits, overwrites, reopen) on a size-bounded configuration (max size, page size, init meta area, prealloc) on which no transaction enables the overflow area. At every quiescent point: capacity probe (allocate one page at a time until OutOfMemory, roll back) + live pages (model) + meta area + 2 header pages == max pages; the allocator snapshot covers [2,end) without gaps (no leaked page) and meta accounting adds up; the simulated file never exceeded max size; FileStats (DataAllocated, MetaArea, MetaAllocated) equal model/snapshot, also right after reopen. Non-trivial = run that reached out-of-space at least once and continued; distinct = op list + config + schedule hash.",
@@ -112,6 +114,40 @@ func c11Body(e *Env) {
 		g.NoOverflow = true
 		r.CheckCover = true
 		r.NoPostCheck = probeRng.Intn(2) == 0
+		// some reopens raise the limit (also to values that are not a multiple of
+		// the page size: rounded down); conservation then holds for the new limit
+		growRng := e.Rng("c11grow")
+		r.ReopenFn = func() {
+			if growRng.Intn(3) != 0 || r.Cfg.MaxSize == 0 {
+				r.Reopen()
+				return
+			}
+			ps := r.Cfg.PageSize
+			newMax := r.Cfg.MaxSize + (1+growRng.Intn(8))*ps + []int{0, 100, ps - 1}[growRng.Intn(3)]
+			if err := e.CloseFile(r.F); err != nil {
+				e.Fail("C10", "close-error", "File.Close failed: %v", err)
+				return
+			}
+			r.F = nil
+			o := r.Options()
+			o.Flags |= txfile.FlagUpdMaxSize
+			o.MaxSize = uint64(newMax)
+			o.InitMetaArea = 0
+			if err := r.OpenWith(o); err != nil {
+				e.Fail("C14", "reopen-error", "open with FlagUpdMaxSize (max size %d -> %d) failed: %v", r.Cfg.MaxSize, newMax, err)
+				return
+			}
+			e.Probe("reopen_with_bigger_limit")
+			r.Cfg.MaxSize = newMax / ps * ps
+			r.Cur().TxID = txfile.VerifHeaderSnapshot(r.F).TxID
+			when := fmt.Sprintf("after reopen with FlagUpdMaxSize (new max size %d)", newMax)
+			r.VerifyAll(when)
+			r.CheckPartition()
+			r.CheckLocksIdle(when)
+			if r.OnQuiescent != nil && !e.Failed() {
+				r.OnQuiescent(when)
+			}
+		}
 		r.AfterCreate = func() { c11Check(e, r, "after creating the file", true) }
 		r.OnQuiescent = func(when string) {
 			if r.txOOMSeen {
